@@ -11,11 +11,13 @@ VARIABLE q
 Bounds == {NoneTok} \cup (-6..6)
 N == NoneTok
 Entries(n) == {IInt(i) : i \in (-n)..(n - 1)} \cup {ISl(a, b, s) : a \in {N, -1, 1, 5}, b \in {N, -2, 0, 2}, s \in {1, 2, -1}}
-                \cup {IList(<<0>>), IList(<<n - 1, 0>>), IList(<<-1>>)}
+                \cup {IList(<<0>>), IList(<<n - 1, 0>>), IList(<<-1>>), IArr(<<n - 1, 0>>), IArr(<<-1>>),
+                      IMask([k \in 1..n |-> k % 2]), IMask([k \in 1..n |-> 0]), IMask([k \in 1..n |-> 1])}
 LInit == \/ q \in [t : {"slice"}, n : 0..4, a : Bounds, b : Bounds, s : {-3, -2, -1, 1, 2, 3}, i : {<<>>}, shp : {<<>>}]
          \/ q \in [t : {"sel"}, n : {0}, a : {0}, b : {0}, s : {0}, i : {<<e>> : e \in Entries(3)}, shp : {<<3>>}]
          \/ q \in [t : {"sel"}, n : {0}, a : {0}, b : {0}, s : {0},
-                   i : {<<e>> : e \in Entries(2)} \cup {<<e, f>> : e \in Entries(2), f \in Entries(3)}, shp : {<<2, 3>>}]
+                   i : {<<e>> : e \in Entries(2)} \cup {<<e, f>> : e \in Entries(2), f \in Entries(3)}
+                       \cup {<<IMaskAll(<<1, 0, 0, 1, 1, 0>>)>>, <<IMaskAll(<<0, 0, 0, 0, 0, 0>>)>>}, shp : {<<2, 3>>}]
          \/ q \in [t : {"contig"}, n : {0}, a : {0}, b : {0}, s : {0}, i : {<<>>}, shp : {<<2, 3>>, <<3, 2>>, <<1, 3>>, <<3, 1>>, <<4>>}]
 LNext == UNCHANGED q
 LSpec == LInit /\ [][LNext]_q
@@ -35,6 +37,10 @@ SelLaw ==
       /\ Len(S.pos) = Size(S.shp)
       /\ \A k \in 1..Len(S.pos) : S.pos[k] \in 1..Size(q.shp)
       /\ (~S.adv => \A j, k \in 1..Len(S.pos) : j # k => S.pos[j] # S.pos[k])
+      /\ (S.arr => S.adv)
+      \* a boolean array selects every flagged position exactly once, in increasing order
+      /\ (q.i[1].k = "maskall" => /\ \A k \in 1..(Len(S.pos) - 1) : S.pos[k] < S.pos[k + 1]
+                                  /\ {S.pos[k] : k \in 1..Len(S.pos)} = {c \in 1..Size(q.shp) : q.i[1].l[c] = 1})
       /\ Sel(q.shp, <<IFull>>).pos = Iota(Size(q.shp))
       /\ Sel(q.shp, <<IFull>>).shp = q.shp
 
